@@ -57,7 +57,8 @@ def dispatch (st : DState) (line : String) (impl : Option String) : DState × St
   | some "rules" => (st, rulesStepAll t impl)
   | some "appkey" => (st, appkeyStep t impl)
   | some "client" => (st, clientStep t impl)
-  | some "wire" => (st, if tokStr t 1 == "txnmetrics" then wireTxnMetricsStep t impl else wireStep t impl)
+  | some "wire" => (st, if tokStr t 1 == "txnmetrics" then wireTxnMetricsStep t impl
+                        else if tokStr t 1 == "txnfields" then wireTxnFieldsStep t impl else wireStep t impl)
   | some "watch" => let (c, o) := watchStep st.watch t impl; ({ st with watch := c }, o)
   | some "pid" => let (c, o) := pidStep st.pid t impl; ({ st with pid := c }, o)
   | some "race" => (st, raceStep t impl)
